@@ -82,10 +82,6 @@ def main(argv):
                 # (i) pieces = whole
                 if deliveries[-1] != w:
                     fid = None
-                    # the failure is explained by the unguarded look-aheads iff the faithful model reproduces the
-                    # implementation exactly AND the model with those look-aheads guarded is chunk independent here
-                    if agrees and sp.get("W") == sp.get("F") and (im.get("G", "-") != "-" or "\\92;" in inp or any(ch in inp.split(" ")[1] for ch in "%^~")):
-                        fid = "unguarded-end-of-chunk"
                     prop_fail.append({"input": inp, "whole": w, "pieces": deliveries, "model": model, "repaired_model": spec,
                                       "agrees_with_model": agrees, "finding": fid,
                                       "kind": "chunking: the last delivery of the pieces differs from the whole-text parse"})
@@ -97,15 +93,13 @@ def main(argv):
                     prop_fail.append({"input": inp, "whole": w, "finding": None, "agrees_with_model": agrees,
                                       "kind": "panic escaped from the parser"})
                 elif st == "D" and u[0] == "unfinished":
-                    fid = "open-string-top-level" if (agrees and u[1] == "Str" and u[2] == "0") else None
+                    fid = None
                     prop_fail.append({"input": inp, "whole": w, "scanner": sp.get("U"), "finding": fid, "agrees_with_model": agrees,
                                       "kind": "an unfinished prefix (%s open, bracket depth %s) is accepted as complete: no more-input request" % (u[1], u[2])})
                 elif st == "M" and u[0] == "finished":
                     fid = None
                     if agrees and lk in ("Symbol:-", "Symbol:+"):
                         fid = "sign-symbol-at-end"
-                    elif agrees and lk.startswith("Comment:") and "**/" in lk:
-                        fid = "blockcomment-star-star"
                     prop_fail.append({"input": inp, "whole": w, "scanner": sp.get("U"), "last_token": lk, "finding": fid, "agrees_with_model": agrees,
                                       "kind": "a finished text asks for more input"})
                 # (iii) the last token is never lost
@@ -140,7 +134,7 @@ def main(argv):
             c.violation({"kind": "correspondence: the implementation differs from the Coq model (no input violating the property found)",
                          "inputs": [f["input"] for f in corr_fail[:10]], "cases": corr_fail[:10], "count": len(corr_fail)}, no_input=True, tag="corr")
         elif spec_fail:
-            c.violation({"kind": "the repaired model is not chunk independent on a case: theorem chunk_independent_strict is contradicted (model runner / extraction problem)",
+            c.violation({"kind": "the model is not chunk independent on a case: theorem chunk_independent is contradicted (model runner / extraction problem)",
                          "cases": spec_fail[:5]}, no_input=True, tag="spec")
         elif c.proof_break:
             c.violation({"kind": "proof obligation no longer checks", "detail": c.proof_break}, no_input=True, tag="proof")
